@@ -153,7 +153,7 @@ theorem nonsciFinish_wf (o : WOpts) {r er : Nat} (hr : 0 < r) (digits : List Nat
 
 theorem truncateAndRound_none (r : Nat) (o : WOpts) (ho : o.maxDigits = none) (buf : List Nat) (s e : Nat) :
     WriteRadix.truncateAndRound r o buf s e = .ok (buf, e - s, false) := by
-  unfold WriteRadix.truncateAndRound; rw [ho]
+  unfold WriteRadix.truncateAndRound WriteRadix.truncateAndRoundP; rw [ho]
 
 /-- a window of the scratch array that ends at or before `fraction_cursor` only contains generated digits -/
 theorem mem_window (g : Gen) {s k : Nat} (hk : k = 0 ∨ s + k ≤ g.ints.length + g.fracs.length) {c : Nat}
@@ -267,5 +267,12 @@ theorem genInteger_digitBytes {f : Fmt} (h : FOK f) {r : Nat} (hr0 : 0 < r) (hr3
       (padLoop_digitBytes hr0 _ _ _ _ x (by simp) hp) hi
   | fault => rw [hp] at hi; simp [Res.bind] at hi
   | panic => rw [hp] at hi; simp [Res.bind] at hi
+
+/-- `writeFloat` with the switches of the positional repairs off (the code as it is in /repo) -/
+theorem writeFloat_old (cf : Bool) (feats : Features) (f : Fmt) (fmt : Format) (o : WOpts) (bits len : Nat) :
+    WriteRadix.writeFloat cf feats f fmt o bits len =
+      (generate cf f fmt.mantissaRadix bits).bind fun g =>
+        (layoutText (WriteFloat.effFmt feats fmt) feats o fmt.mantissaRadix g).bind fun t =>
+          if t.hi > len then .panic else .ok t.text := rfl
 
 end LexVerif.Proof.WriteRadixWF
